@@ -3,7 +3,7 @@
 From Coq Require Import List NArith ZArith.
 From HS Require Import Quorum.QuorumModel Protocol.Core Protocol.Chained Protocol.ChainedExec Protocol.ChainedExecProofs.
 From HS Require Import Protocol.Fast Protocol.FastExec Protocol.FastExecProofs.
-From HS Require Protocol.Refine Protocol.RefineFast Protocol.Bridge Cert.CertModel Crypto.Symbolic Base.Prelude.
+From HS Require Protocol.Refine Protocol.RefineFast Protocol.Stack Protocol.Bridge Cert.CertModel Crypto.Symbolic Base.Prelude.
 Import ListNotations.
 Open Scope N_scope.
 
@@ -241,6 +241,67 @@ Proof.
   exact (RefineFast.fast_replica_commit_refines (member replicas) (qsize replicas) s f blk gp).
 Qed.
 Print Assumptions C01_code_level_fast_commit_refines_abstract_rule.
+
+(* The replica stack in one statement: C03's model of Voter.Verify (freshness, certificate, parent,
+   view and leader checks) on top of C04's rule model refines the abstract vote step.
+   [Stack.describes] says that the proposal record the voter model sees describes the code-level
+   proposal and store the rule model sees; the certificate verdict is linked to "certified" by
+   C01_verified_qc_is_certified below. *)
+Theorem C01_voter_and_rules_stack_refines_abstract_step :
+  forall replicas byz leader,
+    config_ok replicas byz (Refine.absb Refine.R.genesis) = true ->
+    forall s r f lk cur st p pr,
+      let genesis := Refine.absb Refine.R.genesis in
+      let blk := Refine.R.p_block pr in
+      Chained.reach RChained (member replicas) (honest byz) (qsize replicas) genesis s ->
+      honest byz r = true ->
+      Refine.view_of f (Chained.U s) ->
+      Chained.U s (Refine.R.b_hash blk) = Some (Refine.absb blk) ->
+      lock (Chained.loc genesis s r) = Refine.absb lk ->
+      lastVoted (Chained.loc genesis s r) = Stack.V.last_voted st ->
+      Stack.describes Refine.R.chained_vote p pr f lk cur ->
+      (Stack.V.p_qc_ok p = true ->
+       Chained.certified (member replicas) (qsize replicas) genesis s (Refine.R.qc_hash (Refine.R.b_qc blk))) ->
+      Stack.V.verify leader st p = true ->
+      Chained.step RChained (member replicas) (honest byz) (qsize replicas) genesis s
+                   (Chained.cast_vote genesis s r (Refine.absb blk)) /\
+      lock (Chained.loc genesis (Chained.cast_vote genesis s r (Refine.absb blk)) r)
+        = Refine.absb (fst (Refine.R.chained_commit f lk blk)).
+Proof.
+  intros replicas byz leader Hc s r f lk cur st p pr.
+  exact (Stack.chained_stack_vote_refines (member replicas) (honest byz) (qsize replicas)
+           (quorum_inter_inst replicas byz _ Hc) (quorum_has_honest_inst replicas byz _ Hc)
+           leader s r f lk cur st p pr).
+Qed.
+Print Assumptions C01_voter_and_rules_stack_refines_abstract_step.
+
+Theorem C01_voter_and_simple_rules_stack_refines_abstract_step :
+  forall replicas byz leader,
+    config_ok replicas byz (Refine.absb Refine.R.genesis) = true ->
+    forall s r f lk cur st p pr,
+      let genesis := Refine.absb Refine.R.genesis in
+      let blk := Refine.R.p_block pr in
+      Chained.reach RSimple (member replicas) (honest byz) (qsize replicas) genesis s ->
+      honest byz r = true ->
+      Refine.view_of f (Chained.U s) ->
+      Chained.U s (Refine.R.b_hash blk) = Some (Refine.absb blk) ->
+      lock (Chained.loc genesis s r) = Refine.absb lk ->
+      lastVoted (Chained.loc genesis s r) = Stack.V.last_voted st ->
+      Stack.describes Refine.R.simple_vote p pr f lk cur ->
+      (Stack.V.p_qc_ok p = true ->
+       Chained.certified (member replicas) (qsize replicas) genesis s (Refine.R.qc_hash (Refine.R.b_qc blk))) ->
+      Stack.V.verify leader st p = true ->
+      Chained.step RSimple (member replicas) (honest byz) (qsize replicas) genesis s
+                   (Chained.cast_vote genesis s r (Refine.absb blk)) /\
+      lock (Chained.loc genesis (Chained.cast_vote genesis s r (Refine.absb blk)) r)
+        = Refine.absb (fst (Refine.R.simple_commit f lk blk)).
+Proof.
+  intros replicas byz leader Hc s r f lk cur st p pr.
+  exact (Stack.simple_stack_vote_refines (member replicas) (honest byz) (qsize replicas)
+           (quorum_inter_inst replicas byz _ Hc) (quorum_has_honest_inst replicas byz _ Hc)
+           leader s r f lk cur st p pr).
+Qed.
+Print Assumptions C01_voter_and_simple_rules_stack_refines_abstract_step.
 
 (* "certified" is what VerifyQuorumCert establishes (C02's model) under signature
    unforgeability: every genuine vote signature of a member inside the certificate is a vote of
